@@ -11,7 +11,7 @@ DRV = 'drv_c02'
 REGISTRY = {
     'id': 'C02',
     'text': 'Mechanical tie for the arithmetic core: harness/translate_masscore.py reads the CURRENT source with ast and emits Generated/MassCorePy.lean (adjust_mass, adjust_mz, _parse_adduct_mass from mass_calc.py; chem_mass (dict argument) with its loop body from chem_util.py; merge_dicts with its two loops from util.py); Props/C02Gen (6 theorems) proves each equal to the hand model (GenMass.adjust_mass = Mass.adjustMass, adjust_mz = Mass.adjustMz, _parse_adduct_mass = Mass.adductMassP, chem_mass_loop1 = Chem.chemStep, chem_mass = Chem.chemMass, merge_dicts = Chem.merge for a first dict with distinct keys), so the theorems below hold for the definitions read off the source; hand-modelled only (tied by correspondence): mass, mz, comp_mass and the label path, _parse_charge_adducts_mass (isinstance dispatch), parse_ion_elements, parse_static_mods, the text branch of chem_mass; a function outside the translator subset is reported as untranslated and falls back to correspondence. '
-            'Lean (25 theorems): kernel-checked table obligations over modules regenerated from constants.py / data/chem.txt on every run '
+            'Lean (26 theorems): kernel-checked table obligations over modules regenerated from constants.py / data/chem.txt on every run '
             '(24 residue formulas = hand-typed formulas; 21 NIST nuclide masses within 1e-8; average masses within 1e-6; CODATA particles '
             'and |PROTON_MASS - (m(1H) - m_e)| <= 2e-8; ion-offset tables = backbone chemistry for 18 ion types x 2 modes; both encodings of '
             'the +1 ions) and, for the executable model of mass / mz: mass_eq_spec_partial / mz_eq_spec_partial / mass_eq_spec_concrete '
@@ -21,7 +21,8 @@ REGISTRY = {
             'defect sum q*m_e*(count-1), zero when every count is 1 - the known finding); mass_label_eq_spec (isotope-label path = sum of '
             'parts with the element substituted: labelShift on residues, ion offset and charge carrier, on modifications only with '
             'use_isotope_on_mods); mass_precision_last / mass_precision_bound (precision applied last on both paths, error <= half a unit '
-            'of the last place); reference_closeness (library tables vs hand-typed NIST for any composition). The model is tied to '
+            'of the last place; mz_double_rounding_bound: a caller that rounds the mass first, as fragment() does, is within '
+            '(1 + 1/z) half units of the exact quotient); reference_closeness (library tables vs hand-typed NIST for any composition). The model is tied to '
             '/repo by differential correspondence at 1e-7 Da (every line of the modelled functions is executed in the quick tier) and '
             'the implementation is compared with the hand-typed NIST reference at 1e-5 Da (monoisotopic) / 2e-3 Da (average), '
             'labelled peptides included',
@@ -1059,8 +1060,15 @@ def classify(f):
             from peptacular.constants import ELECTRON_MASS
             from peptacular.proforma.proforma_parser import parse_ion_elements
             m = re.match(r'mass = (\S+), specification sum over the NIST reference = (\S+) ', f.get('detail', ''))
+            scale = 1.0
             if not m:
-                return None
+                # the same finding seen through mz(): the electron term divided by the charge (rounding to `precision` can push
+                # a deviation that the mass comparison still tolerates over the half-unit bound of the m/z comparison)
+                m = re.match(r'mz = (\S+) but specification mass / charge = (\S+)', f.get('detail', ''))
+                ch = kw.get('charge', a._charge)
+                if not m or not ch:
+                    return None
+                scale = float(ch)
             diff = float(m.group(1)) - float(m.group(2))
             pred = 0.0
             for x in ad.split(','):
@@ -1069,7 +1077,7 @@ def classify(f):
                     pred += q * ELECTRON_MASS * (cnt - 1)
             tol = 1e-5 if kw.get('monoisotopic', True) else 2e-3
             p = kw.get('precision')
-            if abs(diff - pred) <= tol + (0.5 * 10.0 ** -p if p is not None else 0.0):
+            if abs(diff - pred / scale) <= tol + (0.5 * 10.0 ** -p if p is not None else 0.0):
                 return 'KF-C02-adduct-electron-count'
     return None
 
